@@ -22,10 +22,10 @@ Theorem C13_else_iff_empty : forall (items : list str) stored limit offset cont 
 Proof. exact (@else_iff_nothing_visited str). Qed.
 Print Assumptions C13_else_iff_empty.
 
-Theorem C13_for_else : forall fuel l body els st seg st1,
-  eval_loop l st = Ok (seg, 0%Z, st1) ->
-  exec (S (S fuel)) [] st [BFor l body els] =
-  (do r <- exec (S fuel) [] st1 els;
+Theorem C13_for_else : forall sq dis fuel l body els fs st seg st1,
+  eval_loop sq l st = Ok (seg, 0%Z, st1) ->
+  exec sq dis (S (S fuel)) fs st [BFor l body els] =
+  (do r <- exec sq dis (S fuel) fs st1 els;
    let '(out, st', sg) := r in
    match sg with SNormal => Ok (out ++ [], st', SNormal) | _ => Ok (out, st', sg) end).
 Proof. exact for_else_when_nothing_visited. Qed.
@@ -39,9 +39,9 @@ Theorem C13_forloop_helpers : forall k n,
 Proof. exact forloop_helpers. Qed.
 Print Assumptions C13_forloop_helpers.
 
-Theorem C13_for_prints_visited : forall fuel l els st seg n st1,
-  eval_loop l st = Ok (seg, n, st1) -> n <> 0%Z ->
-  exec (S (S (S (S fuel)))) [] st [BFor l [BPrint] els] = Ok (printed seg 0 (zlen seg), st1, SNormal).
+Theorem C13_for_prints_visited : forall sq dis fuel l els fs st seg n st1,
+  eval_loop sq l st = Ok (seg, n, st1) -> n <> 0%Z ->
+  exec sq dis (S (S (S (S fuel)))) fs st [BFor l [BPrint] els] = Ok (printed seg 0 (zlen seg), st1, SNormal).
 Proof. exact for_prints_visited. Qed.
 Print Assumptions C13_for_prints_visited.
 
@@ -63,6 +63,157 @@ Theorem C13_tablerow_structure : forall c (k : nat), (0 < c)%Z ->
 Proof. exact tablerow_structure. Qed.
 Print Assumptions C13_tablerow_structure.
 
+(* tablerow for every cols value that is not positive (0, negative; nil, non-numeric strings and infinity count as 0):
+   a single row, the k-th item in column k+1; and for cols beyond the number of items (huge values) as well *)
+Theorem C13_tablerow_nonpositive_cols : forall c (k : nat), (c <= 0)%Z ->
+  tr_steps c (S k) tr_init = {| tr_index := Z.of_nat k; tr_row := 1; tr_col := Z.of_nat k + 1 |}.
+Proof. exact tablerow_nonpositive. Qed.
+Print Assumptions C13_tablerow_nonpositive_cols.
+
+Theorem C13_tablerow_wide_cols : forall c (k : nat), (Z.of_nat k < c)%Z ->
+  let s := tr_steps c (S k) tr_init in tr_row s = 1%Z /\ tr_col s = (Z.of_nat k + 1)%Z.
+Proof. exact tablerow_wide. Qed.
+Print Assumptions C13_tablerow_wide_cols.
+
+(* a cols value never fails: it is the integer the value denotes, 0 when it denotes none *)
+Theorem C13_cols_value : forall a, int_or_zero a = Ok (match to_int_arg a with Ok z => z | _ => 0%Z end).
+Proof. exact cols_value. Qed.
+Print Assumptions C13_cols_value.
+
+(* limit/offset values of every kind: integers and integer strings by value, floats by their integer part,
+   booleans as 0/1; nil, other strings, infinity and NaN are the Liquid type error; and the loop depends on the
+   argument only through that integer *)
+Theorem C13_arg_value : forall a,
+  to_int_arg a =
+  match a with
+  | AInt z | AStrInt z => Ok z
+  | AFloat m e => Ok (Z.quot m (10 ^ Z.of_nat e))
+  | ABool b => Ok (if b then 1 else 0)%Z
+  | ANil | AStrBad | AInf => Err EType
+  end.
+Proof. exact arg_value. Qed.
+Print Assumptions C13_arg_value.
+
+Theorem C13_limit_by_value : forall sq k nm it a a' o r st, to_int_arg a = to_int_arg a' ->
+  eval_loop sq {| lkey := k; lname := nm; liter := it; llimit := Some a; loffset := o; lrev := r |} st =
+  eval_loop sq {| lkey := k; lname := nm; liter := it; llimit := Some a'; loffset := o; lrev := r |} st.
+Proof. exact limit_by_value. Qed.
+Print Assumptions C13_limit_by_value.
+
+Theorem C13_offset_by_value : forall sq k nm it lim a a' r st, to_int_arg a = to_int_arg a' ->
+  eval_loop sq {| lkey := k; lname := nm; liter := it; llimit := lim; loffset := OffArg a; lrev := r |} st =
+  eval_loop sq {| lkey := k; lname := nm; liter := it; llimit := lim; loffset := OffArg a'; lrev := r |} st.
+Proof. exact offset_by_value. Qed.
+Print Assumptions C13_offset_by_value.
+
+(* strings as loop sources: with string_sequences the items are the characters, in order (so the slice theorems
+   above apply to them); without it a string is one item, or none when empty.  Hashes: one key-value pair per entry *)
+Theorem C13_string_sequence : forall s,
+  iter_items true (ItStr s) = map (fun c => [c]) s /\
+  length (iter_items true (ItStr s)) = length s /\ concat_str (iter_items true (ItStr s)) = s.
+Proof. exact string_items_sequence. Qed.
+Print Assumptions C13_string_sequence.
+
+Theorem C13_string_single : forall s, iter_items false (ItStr s) = match s with [] => [] | _ => [s] end.
+Proof. exact string_items_single. Qed.
+Print Assumptions C13_string_single.
+
+Theorem C13_hash_pairs : forall sq l,
+  iter_items sq (ItDict l) = map (fun kv => fst kv ++ [61%N] ++ Z_to_str (snd kv)) l /\
+  length (iter_items sq (ItDict l)) = length l.
+Proof. exact hash_items. Qed.
+Print Assumptions C13_hash_pairs.
+
+(* every loop expression (for and tablerow evaluate the same one) visits `visit` of its source with the integer
+   values of its arguments, starting at the index stored under its key when the offset is continue, and stores
+   where it stopped under that key: so continue chains run across for and tablerow *)
+Theorem C13_loop_expression : forall sq l st seg n st1, eval_loop sq l st = Ok (seg, n, st1) ->
+  exists lim off cont,
+    match llimit l with None => lim = None | Some a => to_int_arg a = Ok (match lim with Some z => z | None => 0%Z end) /\ lim <> None end /\
+    match loffset l with
+    | OffNone => off = None /\ cont = false
+    | OffContinue => off = None /\ cont = true
+    | OffArg a => cont = false /\ exists z, to_int_arg a = Ok z /\ off = Some z
+    end /\
+    visit (iter_items sq (liter l)) (sget (lkey l) st) lim off cont (lrev l) = (seg, n, sget (lkey l) st1) /\
+    st1 = sset (lkey l) (sget (lkey l) st1) st.
+Proof. exact eval_loop_spec. Qed.
+Print Assumptions C13_loop_expression.
+
+(* parentloop: forloop.parentloop^up.h is the helper (index, length, name, ...) of the up-th enclosing FOR loop;
+   a tablerow in between is not on the loop stack; nothing is printed when there is no such loop *)
+Theorem C13_parentloop : forall sq dis fuel fs st up h,
+  exec sq dis (S (S fuel)) fs st [BHelper up h] =
+  Ok (match nth_error (for_frames fs) up with Some f => helper_text f h | None => [] end, st, SNormal).
+Proof. exact helper_is_enclosing_for. Qed.
+Print Assumptions C13_parentloop.
+
+Theorem C13_loop_stack : forall f fs,
+  (f_kind f = KFor -> for_frames (f :: fs) = f :: for_frames fs) /\
+  (f_kind f = KTable -> for_frames (f :: fs) = for_frames fs).
+Proof. intros f fs. split; [exact (for_frames_for f fs)|exact (for_frames_table f fs)]. Qed.
+Print Assumptions C13_loop_stack.
+
+(* include shares the loop stack (parentloop), the continue positions and break/continue with its caller;
+   render starts from an empty loop stack and no continue positions whatever the caller's are, and leaves the
+   caller's untouched *)
+Theorem C13_include_shares_scope : forall sq fuel fs st b,
+  exec sq false (S (S fuel)) fs st [BInclude b] =
+  (do r <- exec sq false (S fuel) fs st b;
+   let '(out, st', sg) := r in
+   match sg with SNormal => Ok (out ++ [], st', SNormal) | _ => Ok (out, st', sg) end).
+Proof. exact include_is_transparent. Qed.
+Print Assumptions C13_include_shares_scope.
+
+Theorem C13_render_is_isolated : forall sq dis dis' fuel fs fs' st st' b out st1 sg,
+  exec sq dis (S (S fuel)) fs st [BRender b] = Ok (out, st1, sg) ->
+  exec sq dis' (S (S fuel)) fs' st' [BRender b] = Ok (out, st', sg) /\ st1 = st.
+Proof. exact render_ignores_caller. Qed.
+Print Assumptions C13_render_is_isolated.
+
+(* break after the j-th item of a for loop: exactly the first j visited items are written, with the helper values
+   (length, rindex, last) of the whole loop; continue: every item keeps its own helper values *)
+Theorem C13_for_break : forall sq dis fuel l els fs st seg n st1 j,
+  eval_loop sq l st = Ok (seg, n, st1) -> n <> 0%Z -> (1 <= j)%Z ->
+  exec sq dis (S (S (S (S (S fuel))))) fs st [BFor l [BPrint; BBreakAt j] els] =
+  Ok (printed (firstn (Z.to_nat j) seg) 0 n, st1, SNormal).
+Proof. exact for_break. Qed.
+Print Assumptions C13_for_break.
+
+Theorem C13_for_continue : forall sq dis fuel l els fs st seg n st1 j,
+  eval_loop sq l st = Ok (seg, n, st1) -> n <> 0%Z ->
+  exec sq dis (S (S (S (S (S fuel))))) fs st [BFor l [BContinueAt j; BPrint] els] =
+  Ok (fcells (print_unless j) no_sig (lname l) seg 0 n, st1, SNormal).
+Proof. exact for_continue. Qed.
+Print Assumptions C13_for_continue.
+
+(* tablerow output: one opened and closed cell per visited item, in the column the row/column theorems give, a row
+   break after a last column unless the item is the last; break after item j completes and closes that cell (and
+   writes its row break) and then ends the loop and the table; continue keeps every cell *)
+Theorem C13_tablerow_prints : forall sq dis fuel l cols fs st seg n st1 ncols,
+  eval_loop sq l st = Ok (seg, n, st1) ->
+  match cols with None => Ok n | Some a => int_or_zero a end = Ok ncols ->
+  exec sq dis (S (S (S (S fuel)))) fs st [BTablerow l cols [BPrint]] =
+  Ok (table_head ++ tcells leaf_print no_sig seg 0 tr_init n ncols ++ table_foot, st1, SNormal).
+Proof. exact tablerow_prints. Qed.
+Print Assumptions C13_tablerow_prints.
+
+Theorem C13_tablerow_break : forall sq dis fuel l cols fs st seg n st1 ncols j,
+  eval_loop sq l st = Ok (seg, n, st1) ->
+  match cols with None => Ok n | Some a => int_or_zero a end = Ok ncols -> (1 <= j)%Z ->
+  exec sq dis (S (S (S (S (S fuel))))) fs st [BTablerow l cols [BPrint; BBreakAt j]] =
+  Ok (table_head ++ tcells leaf_print no_sig (firstn (Z.to_nat j) seg) 0 tr_init n ncols ++ table_foot, st1, SNormal).
+Proof. exact tablerow_break. Qed.
+Print Assumptions C13_tablerow_break.
+
+Theorem C13_tablerow_continue : forall sq dis fuel l cols fs st seg n st1 ncols j,
+  eval_loop sq l st = Ok (seg, n, st1) ->
+  match cols with None => Ok n | Some a => int_or_zero a end = Ok ncols ->
+  exec sq dis (S (S (S (S (S fuel))))) fs st [BTablerow l cols [BContinueAt j; BPrint]] =
+  Ok (table_head ++ tcells (print_unless j) no_sig seg 0 tr_init n ncols ++ table_foot, st1, SNormal).
+Proof. exact tablerow_continue. Qed.
+Print Assumptions C13_tablerow_continue.
+
 (* the arithmetic the code used before the fix (`stop or length`, unclamped) violates the reference:
    limit 0 visits everything, a negative limit raises ValueError. Kept as the witnesses. *)
 Theorem C13_old_slice_refuted :
@@ -74,9 +225,39 @@ Proof.
 Qed.
 Print Assumptions C13_old_slice_refuted.
 
+(* before the repairs: cols 0 put the first (and every) item in row 2 of a table that has one row; a nil cols
+   raised TypeError *)
+Theorem C13_old_tablerow_refuted :
+  tr_row (tr_steps_old 0 1 tr_init) = 2%Z /\ tr_row (tr_steps 0 1 tr_init) = 1%Z /\
+  int_or_zero_old ANil = Err ETypeError /\ int_or_zero ANil = Ok 0%Z.
+Proof. vm_compute. repeat split. Qed.
+Print Assumptions C13_old_tablerow_refuted.
+
 (* non-vacuity: a concrete continue chain satisfying the hypotheses of C13_continue_chain *)
 Example C13_chain_nonvacuous :
   let items := [lit "a"; lit "b"; lit "c"; lit "d"; lit "e"] in
   fst (fst (visit items 0 (Some 2%Z) None false false)) = [lit "a"; lit "b"] /\
   fst (fst (visit items 2 (Some 2%Z) None true false)) = [lit "c"; lit "d"].
+Proof. vm_compute. split; reflexivity. Qed.
+
+(* non-vacuity of the new hypotheses: a mixed chain (for, tablerow, for over one key), parentloop through include and
+   render, a string looped over as a sequence *)
+Example C13_mixed_chain_nonvacuous :
+  let lp := fun lim off => {| lkey := 0; lname := lit "x0-a"; liter := ItList [1; 2; 3; 4]%Z; llimit := lim; loffset := off; lrev := false |} in
+  run_template {| t_strseq := false; t_body :=
+    [BFor (lp (Some (AInt 1)) OffNone) [BText (lit "f")] []; BTablerow (lp (Some (AFloat 19 1)) OffContinue) (Some ANil) [BText (lit "t")];
+     BFor (lp None OffContinue) [BHelper 0 HIndex; BHelper 0 HName] []] |} =
+  OOut (lit "f" ++ table_head ++ td_open 1 ++ lit "t" ++ td_close ++ table_foot ++ lit "1x0-a2x0-a").
+Proof. vm_compute. reflexivity. Qed.
+
+Example C13_parentloop_nonvacuous :
+  let lp := fun nm => {| lkey := 0; lname := nm; liter := ItList [7; 8]%Z; llimit := None; loffset := OffNone; lrev := false |} in
+  run_template {| t_strseq := false; t_body :=
+    [BFor (lp (lit "x0-a")) [BInclude [BFor (lp (lit "x1-a")) [BHelper 1 HIndex] []]; BRender [BFor (lp (lit "x1-a")) [BHelper 1 HIndex; BText (lit ".")] []]] []] |} =
+  OOut (lit "11..22..").
+Proof. vm_compute. reflexivity. Qed.
+
+Example C13_string_nonvacuous :
+  fst (fst (visit (iter_items true (ItStr (lit "abcd"))) 0 (Some 2%Z) (Some 1%Z) false true)) = [lit "c"; lit "b"] /\
+  fst (fst (visit (iter_items false (ItStr (lit "abcd"))) 0 (Some 2%Z) None false true)) = [lit "abcd"].
 Proof. vm_compute. split; reflexivity. Qed.
